@@ -633,7 +633,8 @@ def index_child(case):
     try:
         _res, loop = harness.run_scenario(eng.run, seed=case['seed'], policy=case.get('policy', 'random'),
                                           p=case.get('p', 0.3), max_park=case.get('max_park', 60),
-                                          max_vtime=case.get('max_vtime', 4000), max_jobs=case.get('max_jobs', 40000))
+                                          max_vtime=case.get('max_vtime', 4000), max_jobs=case.get('max_jobs', 40000),
+                                          max_iter=case.get('max_iter', 400000))
     except (vloop.Budget, vloop.Quiescent) as e:
         out = result_of(eng, None, case, case['pid'])
         out['inconclusive'].append(f'{type(e).__name__}: {e} (case {digest(case)})')
